@@ -513,6 +513,12 @@ func (u *Unit) builtin(fr *Frame, st *State, x *ssa.Call, b *ssa.Builtin) *State
 		fr.vals[x] = &Val{T: Term{"unit", SUnit}}
 		return st
 	case "recover":
+		if fr.recovering {
+			r := u.fresh("recovered", SAny)
+			u.assume(st.pc, And(Neq(r, AnyNil), App(SBool, "any_ok", r, u.comp(st, "alloc"))))
+			fr.vals[x] = &Val{T: r}
+			return st
+		}
 		fr.vals[x] = &Val{T: AnyNil}
 		return st
 	case "print", "println":
